@@ -19,6 +19,7 @@ type writeSet struct {
 	pkgs   map[ast.Expr]*Pkg
 	chanOp bool
 	scanner bool
+	maps    []ast.Expr // maps whose cells are written (m[k] = v, delete(m, k))
 }
 
 // collectWrites scans a loop body (and the bodies of closures it calls) for everything it may modify.
@@ -28,6 +29,16 @@ func (fx *Fx) collectWrites(nodes []ast.Node, st *State) *writeSet {
 	var scan func(n ast.Node)
 	addLHS := func(e ast.Expr) {
 		e = ast.Unparen(e)
+		// m[k] = v writes the map's cell, not the variable or field holding the map
+		if ix, ok := e.(*ast.IndexExpr); ok {
+			if t := fx.typeOf(ix.X); t != nil {
+				if _, isMap := t.Underlying().(*types.Map); isMap {
+					ws.maps = append(ws.maps, ix.X)
+					ws.pkgs[ix.X] = fx.pkg
+					return
+				}
+			}
+		}
 		if id, ok := e.(*ast.Ident); ok {
 			if o := fx.pkg.info.ObjectOf(id); o != nil {
 				ws.vars[o] = true
@@ -36,6 +47,7 @@ func (fx *Fx) collectWrites(nodes []ast.Node, st *State) *writeSet {
 		}
 		// strip to the root that is stable: cut at index expressions
 		root := e
+		derefs := false
 		for {
 			switch r := ast.Unparen(root).(type) {
 			case *ast.IndexExpr:
@@ -43,9 +55,15 @@ func (fx *Fx) collectWrites(nodes []ast.Node, st *State) *writeSet {
 				e = r.X
 				continue
 			case *ast.SelectorExpr:
+				if t := fx.typeOf(r.X); t != nil {
+					if _, isPtr := t.Underlying().(*types.Pointer); isPtr {
+						derefs = true
+					}
+				}
 				root = r.X
 				continue
 			case *ast.StarExpr:
+				derefs = true
 				root = r.X
 				continue
 			}
@@ -56,6 +74,13 @@ func (fx *Fx) collectWrites(nodes []ast.Node, st *State) *writeSet {
 				ws.vars[o] = true
 			}
 			return
+		}
+		// a field (or element) of a local struct/array variable: the variable itself is written
+		if id, ok := ast.Unparen(root).(*ast.Ident); ok && !derefs {
+			if o, ok := fx.pkg.info.ObjectOf(id).(*types.Var); ok && o.Parent() != o.Pkg().Scope() {
+				ws.vars[o] = true
+				return
+			}
 		}
 		ws.locs = append(ws.locs, e)
 		ws.pkgs[e] = fx.pkg
@@ -93,6 +118,12 @@ func (fx *Fx) collectWrites(nodes []ast.Node, st *State) *writeSet {
 				ws.chanOp = true
 			case *ast.CallExpr:
 				ws.calls = append(ws.calls, x)
+				if id, ok := ast.Unparen(x.Fun).(*ast.Ident); ok && id.Name == "delete" && len(x.Args) == 2 {
+					if _, isB := fx.pkg.info.Uses[id].(*types.Builtin); isB {
+						ws.maps = append(ws.maps, x.Args[0])
+						ws.pkgs[x.Args[0]] = fx.pkg
+					}
+				}
 				if se, ok := ast.Unparen(x.Fun).(*ast.SelectorExpr); ok {
 					if sel, ok := fx.pkg.info.Selections[se]; ok && sel.Kind() == types.MethodVal {
 						if fn, ok := sel.Obj().(*types.Func); ok && strings.HasPrefix(fn.FullName(), "(*bufio.Scanner).") {
@@ -151,6 +182,20 @@ func (fx *Fx) havoc(st *State, ws *writeSet) {
 				panic(unsupported("loop writes through non-location " + exprText(e)))
 			}
 			fx.store(st, p.loc, fx.freshVal(st, "h_"+sanitize(exprText(e)), p.loc.T))
+		}()
+	}
+	for _, e := range ws.maps {
+		saved := fx.pkg
+		fx.pkg = ws.pkgs[e]
+		func() {
+			fx.inSpec++
+			defer func() { fx.inSpec--; fx.pkg = saved }()
+			defer func() { recover() }() // a map only reachable through loop-local variables needs no havoc at the head
+			mv := fx.eval(st, e, false)
+			if m, ok := mv.T.Underlying().(*types.Map); ok {
+				cell, _, _ := fx.mapSort(m)
+				fx.store(st, &Loc{kind: locCell, key: "map_" + cell, ref: mv.X, T: mv.T, S: cell}, Val{T: mv.T, S: cell, X: fx.d.freshConst("h_map", cell)})
+			}
 		}()
 	}
 	abstract := false
